@@ -35,13 +35,13 @@ structure DId (s : Nat) (st : Stream) (cl : Client) : Prop where
   count : st.src.pc ≠ .done → st.sto.dropped = false → st.src.iframe = st.sto.ncommit + (if st.src.cur.isSome then 1 else 0)
   hwid : st.src.pc ≠ .done → st.cam.frame = st.src.iframe
   cur : ∀ f, st.src.cur = some f → st.src.pc = .commitLock ∧ 0 < st.src.iframe ∧ f = ⟨st.cam.run, st.src.iframe - 1, st.src.iframe - 1⟩
-  curlock : st.src.pc = .commitLock → st.src.cur.isSome = true
+  curlock : st.src.pc = .abortLock → st.src.cur = none
   dropped : st.sto.dropped = true → (cv st.sinkCh).acc = false ∨ st.src.pc = .done
   fresh : 2 ≤ stage cl.pc s → st.sto.ncommit = 0 ∧ st.sto.dropped = false
   fresh8 : stage cl.pc s = 8 → st.cam.frame = 0
 
 /-- `DId` under the premises of `DUseP`, for frames of positive size -/
 def DIdP (s : Nat) (st : Stream) (cl : Client) : Prop :=
-  st.cam.emptyEvery = 0 → cl.misused = false → 0 < st.F → DId s st cl
+  Here st → cl.misused = false → 0 < st.F → DId s st cl
 
 end AcqVerif.Runtime
